@@ -147,10 +147,18 @@ class NP:
 
     @staticmethod
     def array(x, dtype=None, **kw):
-        if dtype is None and isinstance(x, (list, tuple)) and x and all(isinstance(e, int) and not isinstance(e, bool) for e in x) \
-                and any(isinstance(getattr(e, "r", None), R) for e in x):
-            # all Python ints (some symbolic): numpy would infer an integer dtype
-            return _np.array(list(x), dtype=object).view(IntObj)
+        def flat(y):
+            for e in y:
+                if isinstance(e, (list, tuple)):
+                    yield from flat(e)
+                else:
+                    yield e
+        if dtype is None and isinstance(x, (list, tuple)) and x:
+            items = list(flat(x))
+            if items and all(isinstance(e, int) and not isinstance(e, bool) for e in items) \
+                    and any(isinstance(getattr(e, "r", None), R) for e in items):
+                # all Python ints (some symbolic), flat or nested: numpy would infer an integer dtype
+                return _np.array([list(r) if isinstance(r, tuple) else r for r in x], dtype=object).view(IntObj)
         return _np.array(x, dtype=object)
 
     @staticmethod
